@@ -234,6 +234,13 @@ def run(repo, rep):
             if need:
                 n += 1
                 missing = sorted(need - got)
+                if missing:
+                    # not read in the printer's own body: does what it prints depend on it all the same (read in a helper, through a
+                    # table of field names ...)?  decided on the interpreted paths of the printer
+                    from .c07_shape import attribute_dependence
+                    dep = attribute_dependence(repo, f)
+                    if dep:
+                        missing = sorted(set(missing) - dep)
                 rep.check(not missing, 'C07.b', '%s:state:%s' % (f.name, r.key), f.where,
                           'reads the state that determines equality of %s' % r.key,
                           '%s never reads %s of a %s: two unequal values print the same expression' % (f.name, missing, r.key),
@@ -405,7 +412,7 @@ def run(repo, rep):
                     and isinstance(s.slice.value, int) and isinstance(s.value, ast.Name) and s.value.id in defs:
                 seq = s.value.id
                 n += 1
-                ok, why = _nonempty(seq, defs, g.of(s), s.slice.value)
+                ok, why = _nonempty(seq, defs, g.of(s), s.slice.value, lambda nm, _f=f: (repo.resolve(_f.module, nm) or (None, None)))
                 rep.check(ok, 'C07.e', '%s:index:%s[%d]' % (f.qualname, seq, s.slice.value), '%s:%d' % (f.module.relpath, s.lineno),
                           why, '%s indexes %s[%d] but %s can be empty on this path (%s): IndexError inside the pipeline'
                           % (f.qualname, seq, s.slice.value, seq, why), nontrivial=True)
@@ -521,7 +528,7 @@ def _in_default_branch(node, par):
         (isinstance(p, ast.If) and node in p.orelse and ' is ' in src(p.test))
 
 
-def _nonempty(seq, defs, fs, idx):
+def _nonempty(seq, defs, fs, idx, resolve=None):
     need = idx + 1 if idx >= 0 else -idx
     # lower bound on len(seq) from the dominating facts
     lb = 0
@@ -547,6 +554,19 @@ def _nonempty(seq, defs, fs, idx):
         return True, 'result of .split(): never empty'
     if ds and all(isinstance(d, (ast.Tuple, ast.List)) and len(d.elts) >= need and not any(isinstance(e, ast.Starred) for e in d.elts) for d in ds):
         return True, 'literal with enough elements'
+    # the result of a package function every return of which is a literal with enough elements
+    def long_enough(d):
+        if isinstance(d, (ast.Tuple, ast.List)):
+            return len(d.elts) >= need and not any(isinstance(e, ast.Starred) for e in d.elts)
+        if resolve is not None and isinstance(d, ast.Call) and isinstance(d.func, ast.Name):
+            kind, fn_ = resolve(d.func.id)
+            if kind == 'func':
+                rets = [r for r in effects._own_nodes(fn_.node) if isinstance(r, ast.Return)]
+                return bool(rets) and all(r.value is not None and isinstance(r.value, (ast.Tuple, ast.List)) and len(r.value.elts) >= need
+                                          and not any(isinstance(e, ast.Starred) for e in r.value.elts) for r in rets)
+        return False
+    if ds and all(long_enough(d) for d in ds):
+        return True, 'built with enough elements on every path'
     return False, 'no length / truthiness guard; defined as %s' % [src(d)[:60] for d in ds]
 
 
